@@ -1,9 +1,116 @@
 import RefurbVerif.Wire.Basic
+import RefurbVerif.Wire.Settings
+import RefurbVerif.Model.Loader
 open Lean
 
 namespace RefurbVerif.Wire
+open RefurbVerif.Loader
 
-/-- driver verbs of this group (filled in by the property that owns it) -/
-def handleLoader (_verb : String) (_j : Json) : Option Json := none
+namespace LoaderW
+
+def toAtom (j : Json) : Atom :=
+  match str j "a" with
+  | "empty" => .empty
+  | "node" => .node (str j "n")
+  | "settings" => .settings
+  | "listError" => .listError
+  | "cls" => .cls (str j "n")
+  | "unhashable" => .unhashable (str j "n")
+  | _ => .opaque
+
+def toAnn (j : Json) : Ann :=
+  match j.getObjVal? "u" with
+  | .ok (.arr a) => .union (a.toList.map toAtom)
+  | _ => .one (toAtom j)
+
+def toPKind (s : String) : PKind :=
+  match s with
+  | "posDefault" => .posDefault
+  | "varPos" => .varPos
+  | "kwOnly" => .kwOnly
+  | "kwOnlyDefault" => .kwOnlyDefault
+  | "varKw" => .varKw
+  | _ => .pos
+
+def toSig (j : Json) : Sig :=
+  { callable := bool j "callable"
+    params := (arr j "params").map (fun p => { name := str p "name", ann := toAnn (obj p "ann"), kind := toPKind (str p "kind") })
+    ret := bool j "ret" }
+
+def toLeaf (j : Json) : Leaf :=
+  { errs := (arr j "errs").map (fun e =>
+      { attr := str e "attr", clsName := str e "cls", subclass := bool e "sub", sel := toCheckSel (obj e "sel") })
+    check := match j.getObjVal? "check" with
+      | .ok (.obj _) => some (toSig (obj j "check"))
+      | _ => none
+    file := str j "file"
+    line := nat j "line" }
+
+instance : Inhabited Forest := ⟨.nil⟩
+
+partial def toForest : List Json → Forest
+  | [] => .nil
+  | m :: rest =>
+    if str m "k" == "pkg" then .pkg (str m "name") (toForest (arr m "kids")) (toForest rest)
+    else .leaf (str m "name") (toLeaf m) (toForest rest)
+
+def toPath (s : String) : ModPath := s.splitOn "."
+def pathJ (p : ModPath) : Json := Json.str (".".intercalate p)
+
+def loadErrJ : LoadErr → Json
+  | .typeError loc reason => Json.mkObj [("r", "typeError"), ("located", loc.isSome),
+      ("text", (LoadErr.typeError loc reason).text), ("reason", reason)]
+  | .crash exc => Json.mkObj [("r", "crash"), ("exc", exc)]
+
+def reportJ (r : Report) : Json :=
+  Json.mkObj [("stdout", optJ Json.str r.stdoutLine), ("traceback", r.traceback), ("exit", r.exit)]
+
+def tableJ (t : Dispatch) : Json := Json.arr (t.map (fun x => Json.arr #[Json.str x.1, pathJ x.2])).toArray
+def callJ (c : Call) : Json := Json.arr #[pathJ c.check, c.node, c.nargs]
+
+def modulesJ (f : Forest) (b : ModPath) (targets : List ModPath) : Json :=
+  let r := getModules f b targets
+  Json.mkObj [("out", Json.arr (r.1.map pathJ).toArray), ("err", optJ loadErrJ r.2)]
+
+def sigJ (file : String) (line : Nat) (sig : Sig) : Json :=
+  let res := match validSignature file line sig with
+    | .ok tys => Json.mkObj [("r", "ok"), ("types", toJson tys)]
+    | .error e => loadErrJ e
+  Json.mkObj [("res", res), ("annotations", toJson sig.annotations),
+    ("arity", runCheckArity sig.annotations), ("binds", sig.binds (runCheckArity sig.annotations))]
+
+def loadJ (f : Forest) (b : ModPath) (targets : List ModPath) (s : Settings) (nodes : List String) : Json :=
+  match loadChecks f b targets s with
+  | .error e => Json.mkObj [("r", "error"), ("err", loadErrJ e), ("report", reportJ (reportOf e))]
+  | .ok t =>
+    let run := match runFile f t nodes with
+      | .ok calls => Json.mkObj [("r", "ok"), ("calls", Json.arr (calls.map callJ).toArray)]
+      | .error e => Json.mkObj [("r", "error"), ("err", loadErrJ e), ("report", reportJ (reportOf e))]
+    Json.mkObj [("r", "ok"), ("table", tableJ t), ("run", run)]
+
+end LoaderW
+open LoaderW
+
+/-- verbs: get_modules, valid_signature, load_checks, loader_batch (one forest, many cases) -/
+def handleLoader (verb : String) (j : Json) : Option Json :=
+  match verb with
+  | "get_modules" =>
+    some (modulesJ (toForest (arr j "forest")) (toPath (str j "builtin")) ((strs j "targets").map toPath))
+  | "valid_signature" => some (sigJ (str j "file") (nat j "line") (toSig (obj j "sig")))
+  | "valid_signatures" =>
+    some (Json.arr ((arr j "items").map (fun i => sigJ (str i "file") (nat i "line") (toSig (obj i "sig")))).toArray)
+  | "load_checks" =>
+    some (loadJ (toForest (arr j "forest")) (toPath (str j "builtin")) ((strs j "targets").map toPath)
+      (toSettings (obj j "settings")) (strs j "nodes"))
+  | "loader_batch" =>
+    let f := toForest (arr j "forest")
+    let b := toPath (str j "builtin")
+    some (Json.arr ((arr j "cases").map (fun c =>
+      let ts := (strs c "targets").map toPath
+      match c.getObjVal? "settings" with
+      | .ok (.obj _) => Json.mkObj [("modules", modulesJ f b ts),
+          ("load", loadJ f b ts (toSettings (obj c "settings")) (strs c "nodes"))]
+      | _ => Json.mkObj [("modules", modulesJ f b ts)])).toArray)
+  | _ => none
 
 end RefurbVerif.Wire
